@@ -19,7 +19,7 @@ DT_NUM = {"b": 0, "i": 1, "f": 2, "c": 3}
 BIN_OPS = ["add", "sub", "mul", "truediv", "floordiv", "pow", "lt", "le", "gt", "ge", "eq", "ne"]
 CONTRACTIONS = ["sum", "prod", "all", "any", "integrate", "mean", "var", "std"]
 # operations whose float evaluation is exact on the generated inputs (small integers / dyadic volumes): class E
-E_OPS = {"sum", "prod", "all", "any", "integrate", "vdot", "s_vdot", "s_sum", "s_prod", "s_all", "s_any",
+E_OPS = {"unite", "flexible_addsub", "mvdot", "ms_all", "ms_any", "msize", "mflex", "sum", "prod", "all", "any", "integrate", "vdot", "s_vdot", "s_sum", "s_prod", "s_all", "s_any",
          "s_integrate", "total_volume", "scalar_weight", "un", "bin", "bins", "scale", "norm",
          "mbin", "mbins", "mun", "ms_vdot", "ms_sum", "mnorm", "weight"}
 TOL = 1e-9
@@ -254,6 +254,17 @@ def call_impl(built, op):
             return a.s_vdot(built.mfields[op["b"]]), a
         if name == "ms_sum":
             return a.s_sum(), a
+        if name == "mvdot":
+            return a.vdot(built.mfields[op["b"]]), a
+        if name == "ms_all":
+            return a.s_all(), a
+        if name == "ms_any":
+            return a.s_any(), a
+        if name == "msize":
+            return a.size, a
+        if name == "mflex":
+            b = built.mfields[op["b"]]
+            return (a.unite(b) if op.get("unite") else a.flexible_addsub(b, bool(op.get("neg")))), None
         if name == "mnorm":
             return a.norm(py_ord(op["ord"])), a
         raise KeyError(name)
@@ -285,6 +296,10 @@ def call_impl(built, op):
         return (fn(c, f) if op.get("rev") else fn(f, c)), f
     if name == "scale":
         return f.scale(py_scalar(op["c"])), f
+    if name == "unite":
+        return f.unite(built.fields[op["g"]]), f
+    if name == "flexible_addsub":
+        return f.flexible_addsub(built.fields[op["g"]], bool(op.get("neg"))), f
     raise KeyError(name)
 
 
